@@ -133,6 +133,11 @@ func (x *Enc) typeFacts(t types.Type, v Val, h Heap) Term {
 	}
 	if _, ok := t.Underlying().(*types.Slice); ok && len(v.ts) == 4 {
 		fs = append(fs, sliceWF(v))
+		if h.m != nil {
+			// backing arrays of existing slices were allocated before now
+			x.regKey(keyAlloc, "Int")
+			fs = append(fs, app("<=", v.ts[0], x.hget(h, keyAlloc)))
+		}
 	}
 	return and(fs...)
 }
